@@ -13,7 +13,8 @@ func (f *Formatter) formatExpression(expr ast.Expression) *ChunkBuffer {
 	buf := f.chunkBuffer()
 
 	// leading comment
-	if v := f.formatComment(expr.GetMeta().Leading, "", 0); v != "" {
+	// ChunkBuffer breaks the line after a line comment by itself
+	if v := f.formatComments(expr.GetMeta().Leading, "", 0, false); v != "" {
 		buf.Write(v, Comment)
 	}
 
@@ -50,11 +51,17 @@ func (f *Formatter) formatExpression(expr ast.Expression) *ChunkBuffer {
 	}
 
 	// trailing comment
-	if v := f.formatComment(expr.GetMeta().Trailing, "", 0); v != "" {
+	if v := f.formatComments(expr.GetMeta().Trailing, "", 0, false); v != "" {
 		buf.Write(v, Comment)
 	}
 
 	return buf
+}
+
+// Format an identifier or literal together with its leading and trailing comments.
+// Unlike the String() method of AST nodes (a debug rendering), the line is broken after a line comment.
+func (f *Formatter) formatNode(expr ast.Expression) string {
+	return f.formatExpression(expr).String()
 }
 
 // Primitive Expressions
